@@ -284,6 +284,12 @@ func runC06(c *core.Ctx) {
 					}
 					n++
 					why, ok := allowed[f.Root().Name]
+					if !ok {
+						// a helper extracted from a confirmed writer: unexported and called only from rows of the table
+						if via, okVia := viaConfirmedCallers(c.P, f.Root(), func(name string) bool { _, has := allowed[name]; return has }); okVia {
+							ok, why = true, "helper of "+strings.Join(via, ", ")
+						}
+					}
 					c.Check("who-may-store-metadata", f.Root().Name+"/store.data", c.P.Pos(l.Pos()), ok,
 						"store.data (or a field of the published value) is written outside the state machine's apply functions: "+why)
 				}
@@ -543,14 +549,8 @@ func runTimePredicates(c *core.Ctx) {
 		c.Need(err == nil, "Truncated is a single-return predicate")
 		check(f.Name, f, x, sgRoles, truncated)
 
-		f = c.Fn(metap + ".(*RetentionPolicyInfo).ShardGroupByTimestamp")
-		conds := ifConds(f)
-		c.Need(len(conds) == 1, "selector condition of ShardGroupByTimestamp")
-		check(f.Name+"/selector", f, conds[0], with(map[string]string{`^\$0$`: "t"}),
-			core.And(core.And(contains("t"), core.Not(deleted)), core.Or(core.Not(truncated), core.Lt("t", "trunc"))))
-
 		f = c.Fn(metap + ".(*Data).TruncateShardGroups")
-		conds = ifConds(f)
+		conds := ifConds(f)
 		c.Need(len(conds) == 2, "two conditions in TruncateShardGroups")
 		check(f.Name+"/skip", f, conds[0], with(map[string]string{`^\$0$`: "t"}),
 			core.Or(core.Or(core.Le("end", "t"), deleted), core.And(truncated, core.Lt("trunc", "t"))))
@@ -588,9 +588,13 @@ func runTimePredicates(c *core.Ctx) {
 
 		f = c.Fn(metap + ".(*RetentionPolicyInfo).ExpiredShardGroups")
 		// condition under which a group is appended to the result (independent of how the tests are arranged)
+		var pathTarget core.Match // nil: the append of a selected group
 		pathCheck := func(key string, g *core.FuncInfo, roles map[string]string, spec *core.BExpr) {
 			n++
 			isAppend := func(e *core.Event) bool {
+				if pathTarget != nil {
+					return pathTarget(e)
+				}
 				if e.Kind != core.EvAssign {
 					return false
 				}
@@ -628,6 +632,19 @@ func runTimePredicates(c *core.Ctx) {
 			c.Check("time-predicate", key, g.PosStr(), diff == "", "selection condition "+ren.String()+" differs from specification "+spec.String()+" at "+diff)
 		}
 		expRoles := map[string]string{`^\$0$`: "t", `^\$recv\.Duration$`: "dur", `^const:0$`: "zero", `\.EndTime\+\$recv\.Duration$`: "endPlusDur", `\.DeletedAt$`: "del"}
+		// the group a timestamp is routed to: the condition under which ShardGroupByTimestamp returns a group
+		// (computed as a path condition, so guard clauses and nested ifs are the same thing)
+		sel := c.Fn(metap + ".(*RetentionPolicyInfo).ShardGroupByTimestamp")
+		pathTarget = func(e *core.Event) bool {
+			if e.Kind != core.EvReturn {
+				return false
+			}
+			rs, ok := e.Node.(*ast.ReturnStmt)
+			return ok && len(rs.Results) == 1 && !isNilExpr(sel.Info(), rs.Results[0])
+		}
+		pathCheck(sel.Name+"/selector", sel, with(map[string]string{`^\$0$`: "t"}),
+			core.And(core.And(contains("t"), core.Not(deleted)), core.Or(core.Not(truncated), core.Lt("t", "trunc"))))
+		pathTarget = nil
 		pathCheck(f.Name+"/expired-selection", f, expRoles,
 			core.And(core.And(core.Zero("del"), core.Not(core.EqT("dur", "zero"))), core.Lt("endPlusDur", "t")))
 		f = c.Fn(metap + ".(*RetentionPolicyInfo).DeletedShardGroups")
@@ -642,8 +659,16 @@ func runOwnerRoundRobin(c *core.Ctx) {
 		// owner round-robin in CreateShardGroup: within the replica loop the node index advances by exactly one per
 		// appended owner, and the owner appended is DataNodes[index % len(DataNodes)]
 		f := c.Fn(metap + ".(*Data).CreateShardGroup")
-		info := f.Info()
 		ownersField := c.P.LookupField(metap, "ShardInfo", "Owners")
+		// the assignment loop may have been extracted into an unexported helper of CreateShardGroup
+		for _, g := range withLocalHelpers(c.P, f) {
+			_, w := g.AccessesField(ownersField)
+			if w {
+				f = g
+				break
+			}
+		}
+		info := f.Info()
 		isOwnerAppend := func(e *core.Event) bool {
 			if e.Kind != core.EvAssign {
 				return false
@@ -709,7 +734,23 @@ func runOwnerRoundRobin(c *core.Ctx) {
 		ast.Inspect(f.Body, func(nd ast.Node) bool {
 			if ix, ok := nd.(*ast.IndexExpr); ok && core.FieldPathOf(info, ix.X) == "Data.DataNodes" {
 				if be, ok := ast.Unparen(ix.Index).(*ast.BinaryExpr); ok && be.Op == token.REM && isIdentObj(info, be.X, idxObj) {
-					if ce, ok := be.Y.(*ast.CallExpr); ok && isLenCall(info, ce) && core.FieldPathOf(info, ce.Args[0]) == "Data.DataNodes" {
+					mod := ast.Unparen(be.Y)
+					// the modulus may be hoisted into a local: nodeN := len(data.DataNodes)
+					if id, isId := mod.(*ast.Ident); isId {
+						if fact := f.Flow().FactOfExpr(f.Graph().Exit, id); fact.Def != nil {
+							mod = ast.Unparen(fact.Def)
+						} else {
+							ast.Inspect(f.Body, func(d ast.Node) bool {
+								if as, ok := d.(*ast.AssignStmt); ok && len(as.Lhs) == 1 && len(as.Rhs) == 1 {
+									if lid, ok := as.Lhs[0].(*ast.Ident); ok && info.ObjectOf(lid) == info.ObjectOf(id) {
+										mod = ast.Unparen(as.Rhs[0])
+									}
+								}
+								return true
+							})
+						}
+					}
+					if ce, ok := mod.(*ast.CallExpr); ok && isLenCall(info, ce) && core.FieldPathOf(info, ce.Args[0]) == "Data.DataNodes" {
 						good = true
 					}
 				}
@@ -913,11 +954,35 @@ func mapRangeOrderInsensitive(f *core.FuncInfo, rs *ast.RangeStmt) (bool, string
 		return true, "every statement writes/deletes a map element keyed by the range key"
 	}
 	// (b) arg-min / arg-max with a total tie-break on the key
-	if len(stmts) == 1 {
-		if ifs, ok := stmts[0].(*ast.IfStmt); ok && ifs.Else == nil && keyObj != nil && valObj != nil {
+	// (the selection may be preceded by definitions of named sub-conditions: fewer := freq < minFreq)
+	named := map[types.Object]ast.Expr{}
+	selStmts := stmts
+	for len(selStmts) > 1 {
+		as, ok := selStmts[0].(*ast.AssignStmt)
+		if !ok || as.Tok != token.DEFINE || len(as.Lhs) != 1 || len(as.Rhs) != 1 {
+			break
+		}
+		id, ok := as.Lhs[0].(*ast.Ident)
+		if !ok {
+			break
+		}
+		if b, isB := info.TypeOf(as.Rhs[0]).Underlying().(*types.Basic); !isB || b.Kind() != types.Bool && b.Kind() != types.UntypedBool {
+			break
+		}
+		named[info.ObjectOf(id)] = as.Rhs[0]
+		selStmts = selStmts[1:]
+	}
+	if len(selStmts) == 1 {
+		if ifs, ok := selStmts[0].(*ast.IfStmt); ok && ifs.Else == nil && keyObj != nil && valObj != nil {
 			strictOnVal, tieOnKey := false, false
 			var walk func(x ast.Expr)
 			walk = func(x ast.Expr) {
+				if id, isId := ast.Unparen(x).(*ast.Ident); isId {
+					if def, has := named[info.ObjectOf(id)]; has {
+						walk(def)
+					}
+					return
+				}
 				be, ok := ast.Unparen(x).(*ast.BinaryExpr)
 				if !ok {
 					return
